@@ -176,7 +176,7 @@ func (g G) planC08() *Plan {
 		world: worldOpts{maxSPs: 3, maxUsers: 2, maxReplicas: 2, hardPct: 10, hardURLPct: 25, acsVariety: true, signReqVariety: true, parkVariety: true, noCertPct: 15, issuerVariety: true},
 		wSSO:  40, wCallback: 3, wSLO: 2, wMeta: 3, wAttrQ: 2, wCert: 1, wResume: 30, wFinish: 15, wAdvance: 3, wRereg: 5, wDelSP: 1, wRestart: 1,
 		devPct: 35, tamperPct: 15, timePct: 15, faultPcts: []int{0, 0, 15, 30}, bodyFaultPct: 10, writeFaultPct: 5, rogueSPPct: 5, hostVariety: true, wCancel: 3, deadlinePct: 8,
-		minSteps: 3, maxSteps: 30, maxPre: 1, autoFinishPct: 35}
+		minSteps: 3, maxSteps: 30, maxPre: 1, autoFinishPct: 35, oddHostPct: 3}
 	p := g.planMix("C08", o)
 	// duplicate submission: the same request twice (two tasks, two outcomes) — at the end of the run, right after the original,
 	// or while the original is inside its persist call (a browser double-submit)
